@@ -363,3 +363,31 @@ prop("C18", "c18",
      level="Model-based (stateful) randomised search per provider, lock step with a reference model; bounded exploration.",
      note="Trusted: gocloud fileblob as bucket implementation, client-go's FilteringResourceEventHandler, the fake API server.",
      technique="stateful property-based testing: lock-step reference model over event/poll histories")
+
+prop("C19", "c19",
+     "(a) rule sets: valid YAML/JSON documents from a grammar (routes, path_params, hosts, methods, forward_to, execute "
+     "steps with if/config, on_error), then 1-3 type confusions at any node (string <-> int/float/bool/null/list/map, "
+     "deleted keys) and truncation at a generated offset -> ParseRules + the real processor (create/update), with a "
+     "previously loaded rule set that must keep matching. (b) key stores: empty, certificates only, unsupported key types/"
+     "sizes (RSA 1024, P-224, Ed25519), truncations, dropped / reordered PEM blocks, garbage, bit flips, encrypted without "
+     "password, duplicate keys, other valid stores -> written to the watched file of the three reloadable key holders (jwt "
+     "signer, TLS key store, http_message_signatures strategy) and the registered change listener is fired as heimdall's "
+     "watcher does; plus every truncation offset of a valid store (every 7th offset and all block boundaries in the quick "
+     "tier, exhaustive in the thorough tier). (c) remote responses: JWKS, metadata, introspection, identity, authorization, "
+     "contextualizer and token endpoints answer arbitrary bytes or type-confused JSON with various status codes and content "
+     "types. (d) raw bytes, broken request lines, huge header sets and undecodable bodies on a TCP connection to the served "
+     "decision handler. Oracle: no panic escapes a load / reload / request entry point (a panic there ends the provider, the "
+     "watcher goroutine or the process); after a rejected reload the previously loaded keys/rules still work; every request "
+     "gets an HTTP answer and the next valid request is served with 200. Non-trivial: near-valid inputs (<= 3 edits) and "
+     "every distinct hostile input; distinct by input.",
+     [dict(run="^TestMalformedRuleSetsAreRejectedNotFatal$", quick=1500, thorough=15000, shards_thorough=8),
+      dict(run="^TestKeyStoreReloadsAreRejectedNotFatal$", quick=600, thorough=6000, shards_thorough=4),
+      dict(run="^TestKeyStoreTruncationExhaustive$", quick=1, thorough=1, shards_thorough=1),
+      dict(run="^TestHostileRemoteResponsesYieldErrorResponses$", quick=800, thorough=8000, shards_thorough=6),
+      dict(run="^TestRawRequestsDoNotStopTheService$", quick=150, thorough=1500, shards_thorough=2)],
+     ["a panic recovered by heimdall's own recovery middleware and answered with an error response is not a violation",
+      "panics are observed by running the entry points under recover(); in production the same call sites run on bare goroutines"],
+     level="Randomised structured mutation plus bounded exhaustive truncation of reloadable and remote inputs against the "
+           "entry points the watcher, the providers and the servers use; bounded exploration.",
+     note="Trusted: Go's net/http server for the raw TCP part; the harness' recover() around entry points.",
+     technique="property-based testing / structured fuzzing: mutation grammar + exhaustive truncation, no-panic and still-serving oracle")
